@@ -23,6 +23,7 @@ import (
 	"sync/atomic"
 
 	"k8s.io/apimachinery/pkg/apis/meta/v1/unstructured"
+	"k8s.io/apimachinery/pkg/runtime/schema"
 
 	v1 "github.com/crossplane/crossplane/apis/pkg/v1"
 	"github.com/crossplane/crossplane/verifh/kit"
@@ -437,8 +438,12 @@ func enumerateIntruder(c *kit.Ctx, base *exec, prefix, fp, rev string, op func(x
 	if len(victims) == 0 {
 		return
 	}
-	for idx := 0; idx <= r0.calls; idx++ {
-		name := fmt.Sprintf("%s/intruder-%d", prefix, idx)
+	for idx := 0; idx <= 2*r0.calls+1; idx++ {
+		// two kinds of intrusion per call index: the object is deleted / the active revision of
+		// another package takes control of it
+		action := []string{"deletes", "takes control of"}[idx%2]
+		idx := idx / 2
+		name := fmt.Sprintf("%s/intruder-%d-%s", prefix, idx, strings.Fields(action)[0])
 		if !c.Want(name) {
 			continue
 		}
@@ -449,12 +454,25 @@ func enumerateIntruder(c *kit.Ctx, base *exec, prefix, fp, rev string, op func(x
 		x.cl.OnCall = func(i int, _ string) {
 			if i == idx && !done {
 				done = true
-				if o := x.w.GetObj(victim); o != nil {
-					_ = third.Delete(bg, &unstructured.Unstructured{Object: o})
+				o := x.w.GetObj(victim)
+				if o == nil {
+					return
 				}
+				u := &unstructured.Unstructured{Object: o}
+				if action == "deletes" {
+					_ = third.Delete(bg, u)
+					return
+				}
+				if controllerUID(o) != "" {
+					return // somebody controls it already: a second controller would be rejected
+				}
+				refs := u.GetOwnerReferences()
+				refs = append(refs, ownerRef(x.kind.revGVK, otherPkg+"-r1", x.otherRevUID, true))
+				u.SetOwnerReferences(refs)
+				_ = third.Update(bg, u)
 			}
 		}
-		x.ops = append(x.ops, fmt.Sprintf("a third party deletes %s right before call %d of the next op", victim, idx))
+		x.ops = append(x.ops, fmt.Sprintf("a third party %s %s right before call %d of the next op", action, victim, idx))
 		x.intruded = true
 		_ = op(x)
 		x.intruded = false
@@ -478,6 +496,55 @@ func runFaultSingle(c *kit.Ctx, i int) {
 	base.flush()
 	enumerate(c, base, prefix, "single|"+kit.JSON(sc), sc.nontrivial(), func(x *exec) opResult { return x.establish("pk-r1", sc.Control) })
 	enumerateIntruder(c, base, prefix, "single|"+kit.JSON(sc), "pk-r1", func(x *exec) opResult { return x.establish("pk-r1", sc.Control) })
+	behindCache(c, base, prefix, "single|"+kit.JSON(sc), "pk-r1", sc.Control)
+}
+
+// behindCache: the revision controller's informer cache has not seen any of the package's
+// pre-existing objects yet (its reads of those kinds are frozen at the state before they
+// appeared; its writes hit the store). If one of the objects exists under another owner's
+// control, nothing of the package may be written and the call may not succeed; if any exists at
+// all, the creates it attempts are refused by the server and again nothing is written.
+func behindCache(c *kit.Ctx, base *exec, prefix, fp, rev string, control bool) {
+	name := prefix + "/behind-cache"
+	if !c.Want(name) {
+		return
+	}
+	x := base.fork(name)
+	existing, hostile := 0, 0
+	ri := x.revs[rev]
+	for _, s := range ri.Specs {
+		if o := x.w.GetObj(s.key()); o != nil {
+			existing++
+			if cu := controllerUID(o); cu != "" && cu != ri.UID {
+				hostile++
+			}
+		}
+	}
+	if existing == 0 {
+		return
+	}
+	x.relag(func(gk schema.GroupKind) (int64, bool) {
+		return -x.baseRV, isPkgObjKind(sim.Key{Group: gk.Group, Kind: gk.Kind})
+	})
+	x.intruded = true
+	r := x.establish(rev, control)
+	x.intruded = false
+	var real []string
+	for i := range r.log {
+		e := &r.log[i]
+		if e.Actor == actorRev && e.IsWrite() && !e.DryRun && e.Changed {
+			real = append(real, e.Short())
+		}
+	}
+	if len(real) > 0 {
+		c.Violate("behind-cache-establish-wrote-although-objects-exist", name, fmt.Sprintf("%d of the package's objects already exist (%d under another owner's control) but are not in the controller's cache yet; Establish(control=%v) returned %v and made %d effective write(s): %v", existing, hostile, control, r.err, len(real), real), x.witness(r.log))
+	}
+	if r.err == nil && hostile > 0 && control {
+		c.Violate("behind-cache-establish-succeeded-despite-foreign-controller", name, fmt.Sprintf("%d object(s) are controlled by another owner (not yet in the cache); Establish(control=%v) reported success", hostile, control), x.witness(r.log))
+	}
+	x.count("behind_cache_runs", 1)
+	c.Eval("behind-cache|"+fp, hostile > 0)
+	x.flush()
 }
 
 // runFaultSeq enumerates faults in the three calls of an upgrade: the deactivation of rev1,
